@@ -1,10 +1,388 @@
-import FunModel.SetModel
+import FunProofs.SetModel
+import FunProps.C17
 
-/-! C18 — placeholder until FunProofs/SetModel.lean lands -/
+/-! C18 — `dt.Set`: a map from value to list element plus, for an ordered set, the list of elements.
+    For every sequence of operations, every value and every size:
+    the representation invariant `Inv` holds; the observable behaviour is that of the reference
+    model `members` (the members in iteration order): `Check`/`Len`, `AddCheck` (append unless
+    present, never moves a present value), `DeleteCheck` (erase), `Populate`/`Extend`/`UnmarshalJSON`
+    (fold of add), iteration, `SortQuick`/`SortMerge` (sorted permutation; then iteration and
+    deletion follow the sorted order), `Equal`, the JSON round trip.
+    Property theorems only; `Inv`, `members`, `GoodOrder`, `Total`, `refAdd`, `Reachable` and the
+    helper lemmas are in `FunProofs/SetModel.lean`. -/
+
 namespace FunModel.C18
-open FunModel.SetModel
+open FunModel FunModel.SetModel FunModel.SortSeq
 
-theorem add_present_noop (s : SetSt) (k : Int) (h : s.check k = true) : s.addCheck k = (s, true) := by
-  simp [SetSt.addCheck, h]
+/-! ### 0. the hypotheses are satisfiable -/
+
+theorem total_int_lt : Total (fun a b : Int => a < b) := by
+  intro a b h
+  simp only [decide_eq_true_eq]
+  omega
+
+theorem total_int_gt : Total (fun a b : Int => a > b) := by
+  intro a b h
+  simp only [decide_eq_true_eq]
+  omega
+
+example : StrictWeak (fun a b : Int => a < b) ∧ Total (fun a b : Int => a < b) :=
+  ⟨strictWeak_int_lt, total_int_lt⟩
+
+example : StrictWeak (fun a b : Int => a > b) ∧ Total (fun a b : Int => a > b) :=
+  ⟨strictWeak_int_gt, total_int_gt⟩
+
+/-- a strict weak ordering that is NOT total on distinct values (compare by tens): the sort
+    theorems that do not assume `Total` cover it -/
+example : StrictWeak (fun a b : Int => (a + 1000) / 10 < (b + 1000) / 10) ∧
+    ¬ Total (fun a b : Int => (a + 1000) / 10 < (b + 1000) / 10) :=
+  ⟨strictWeak_int_key, fun h => by have := h 1 2 (by decide); revert this; decide⟩
+
+/-- every set with distinct keys has a possible map order: ascending keys (the one the checks
+    use) and insertion order -/
+theorem ascKeys_goodOrder {s : SetSt} (hi : Inv s) : s.GoodOrder s.ascKeys :=
+  SetSt.ascKeys_good hi.keys_nodup
+
+theorem keys_goodOrder {s : SetSt} (hi : Inv s) : s.GoodOrder (s.hash.map (·.1)) :=
+  SetSt.keys_good hi.keys_nodup
+
+/-! ### 1. the invariant -/
+
+theorem inv_empty : Inv ({} : SetSt) := SetSt.inv_empty
+
+theorem inv_order_empty : Inv (SetSt.order {}) := SetSt.inv_order_empty
+
+/-- `Order()` (which panics unless the set is empty or already ordered) -/
+theorem inv_order {s : SetSt} (hi : Inv s) (he : s.hash = []) : Inv s.order := SetSt.inv_order hi he
+
+theorem inv_addCheck {s : SetSt} (hi : Inv s) (k : Int) : Inv (s.addCheck k).1 :=
+  SetSt.addCheck_inv hi k
+
+theorem inv_deleteCheck {s : SetSt} (hi : Inv s) (k : Int) : Inv (s.deleteCheck k).1 :=
+  SetSt.deleteCheck_inv hi k
+
+theorem inv_addAll {s : SetSt} (hi : Inv s) (ks : List Int) : Inv (s.addAll ks) :=
+  SetSt.addAll_inv hi ks
+
+/-- the repaired `forceSetupOrdered` establishes the invariant whatever order the map is ranged in -/
+theorem inv_forceSetupOrdered {s : SetSt} (hi : Inv s) {mo : List Int} (hg : s.GoodOrder mo) :
+    Inv (s.forceSetupOrdered mo) := SetSt.forceSetupOrdered_inv hi.keys_nodup hg
+
+/-- … and the set it produces iterates in that order -/
+theorem forceSetupOrdered_members {s : SetSt} (hl : s.list = none) (mo : List Int) :
+    (s.forceSetupOrdered mo).members = s.iter mo := by
+  rw [SetSt.forceSetupOrdered_members, SetSt.iter_unordered_eq hl]
+
+/-- no hypothesis on the comparison is needed for the invariant -/
+theorem inv_sortQuick (lt : Int → Int → Bool) {s : SetSt} (hi : Inv s) {mo : List Int}
+    (hg : s.GoodOrder mo) : Inv (SetSt.sortQuick lt s mo) :=
+  (SetSt.sortWith_spec SetSt.sortQuick_perm' lt hi hg).1
+
+theorem inv_sortMerge (lt : Int → Int → Bool) {s : SetSt} (hi : Inv s) {mo : List Int}
+    (hg : s.GoodOrder mo) : Inv (SetSt.sortMerge lt s mo) :=
+  (SetSt.sortWith_spec SetSt.sortMerge_perm' lt hi hg).1
+
+/-- the map and the list of an ordered set point at each other: every list element is the one its
+    item's map entry refers to -/
+theorem list_entry_in_hash {s : SetSt} (hi : Inv s) {l : List (Nat × Int)} (hl : s.list = some l)
+    {a : Nat} {k : Int} (h : (a, k) ∈ l) : (k, some a) ∈ s.hash := by
+  have hk : k ∈ s.hash.map (·.1) := (hi.items_keys l hl k).mp (List.mem_map.mpr ⟨(a, k), h, rfl⟩)
+  obtain ⟨e, he⟩ := SetSt.mem_keys_iff.mp hk
+  obtain ⟨a', rfl, ha'⟩ := hi.entry_ordered l hl k e he
+  have : (a', k) = (a, k) := eq_of_map_eq_of_nodup (·.2) (hi.items_nodup l hl) ha' h rfl
+  cases this
+  exact he
+
+/-- the hypothesis on the map order is needed: a "map order" that misses a key makes the model of
+    `forceSetupOrdered` lose it from the list -/
+example : ¬ Inv (SetSt.sortQuick (fun a b => a < b) (({} : SetSt).addAll [1, 2]) [1]) := by
+  intro hi
+  have := SetSt.len_eq_members hi
+  revert this
+  decide
+
+/-! ### 2. `Check`, `Len` -/
+
+theorem members_nodup {s : SetSt} (hi : Inv s) : s.members.Nodup := SetSt.members_nodup hi
+
+theorem check_iff {s : SetSt} (hi : Inv s) (k : Int) : s.check k = true ↔ k ∈ s.members :=
+  SetSt.check_iff_members hi k
+
+theorem len_eq {s : SetSt} (hi : Inv s) : s.len = s.members.length := SetSt.len_eq_members hi
+
+/-! ### 3. `AddCheck` -/
+
+/-- re-adding a present value changes nothing (in particular it does not move it); a new value
+    goes to the end -/
+theorem addCheck_spec {s : SetSt} (hi : Inv s) (k : Int) :
+    (k ∈ s.members → s.addCheck k = (s, true)) ∧
+    (k ∉ s.members → (s.addCheck k).2 = false ∧ (s.addCheck k).1.members = s.members ++ [k]) := by
+  constructor
+  · intro h
+    exact SetSt.addCheck_present ((check_iff hi k).mpr h)
+  · intro h
+    have hc : s.check k = false := by
+      cases hc : s.check k with
+      | false => rfl
+      | true => exact absurd ((check_iff hi k).mp hc) h
+    exact SetSt.addCheck_absent_members hc
+
+theorem addCheck_orderedness (s : SetSt) (k : Int) : (s.addCheck k).1.list.isSome = s.list.isSome :=
+  SetSt.addCheck_list_isSome s k
+
+/-! ### 4. `DeleteCheck` -/
+
+theorem deleteCheck_spec {s : SetSt} (hi : Inv s) (k : Int) :
+    (s.deleteCheck k).2 = decide (k ∈ s.members) ∧
+    (s.deleteCheck k).1.members = s.members.erase k ∧
+    (s.deleteCheck k).1.members = s.members.filter (· != k) ∧
+    (k ∉ s.members → s.deleteCheck k = (s, false)) := by
+  cases hc : s.check k with
+  | true =>
+    have hk : k ∈ s.members := (check_iff hi k).mp hc
+    obtain ⟨h1, h2⟩ := SetSt.deleteCheck_present_members hi hc
+    refine ⟨?_, ?_, h2, fun h => absurd hk h⟩
+    · rw [h1]; exact (decide_eq_true hk).symm
+    · rw [h2, (members_nodup hi).erase_eq_filter]
+  | false =>
+    have hk : k ∉ s.members := fun h => by
+      have := (check_iff hi k).mpr h
+      rw [hc] at this; cases this
+    rw [SetSt.deleteCheck_absent hc]
+    refine ⟨(decide_eq_false hk).symm, (List.erase_of_not_mem hk).symm, ?_, fun _ => rfl⟩
+    rw [← (members_nodup hi).erase_eq_filter, List.erase_of_not_mem hk]
+
+theorem deleteCheck_orderedness {s : SetSt} (hi : Inv s) (k : Int) :
+    (s.deleteCheck k).1.list.isSome = s.list.isSome := SetSt.deleteCheck_list_isSome hi k
+
+/-! ### 5. `Populate` / `Extend` / `UnmarshalJSON` -/
+
+/-- a bulk add is the fold of the reference add; equivalently it appends the first occurrences of
+    the values that were absent, in order -/
+theorem addAll_spec {s : SetSt} (hi : Inv s) (ks : List Int) :
+    (s.addAll ks).members = ks.foldl SetSt.refAdd s.members ∧
+    (s.addAll ks).members = s.members ++ ks.eraseDups.filter (fun x => decide (x ∉ s.members)) ∧
+    (s.addAll ks).members.Nodup ∧
+    (∀ k, k ∈ (s.addAll ks).members ↔ k ∈ s.members ∨ k ∈ ks) ∧
+    (s.addAll ks).list.isSome = s.list.isSome := by
+  have h := SetSt.addAll_members hi ks
+  refine ⟨h, ?_, ?_, ?_, SetSt.addAll_list_isSome s ks⟩
+  · rw [h, SetSt.foldl_refAdd_eq]
+  · exact members_nodup (inv_addAll hi ks)
+  · intro k; rw [h]; exact SetSt.mem_foldl_refAdd
+
+/-- the reference add, spelled out -/
+theorem refAdd_eq (m : List Int) (k : Int) : SetSt.refAdd m k = if k ∈ m then m else m ++ [k] := rfl
+
+/-- adding values that are new and distinct appends them all -/
+theorem addAll_fresh {s : SetSt} (hi : Inv s) {ks : List Int} (h : (s.members ++ ks).Nodup) :
+    (s.addAll ks).members = s.members ++ ks := by
+  rw [SetSt.addAll_members hi, SetSt.foldl_refAdd_of_nodup h]
+
+/-! ### 6. iteration -/
+
+theorem iter_ordered {s : SetSt} (h : s.list.isSome) (mo : List Int) : s.iter mo = s.members := by
+  obtain ⟨l, hl⟩ := Option.isSome_iff_exists.mp h
+  exact SetSt.iter_ordered hl mo
+
+theorem iter_unordered {s : SetSt} (hi : Inv s) (_h : s.list = none) {mo : List Int}
+    (hg : s.GoodOrder mo) : (s.iter mo).Perm s.members ∧ (s.iter mo).Nodup := by
+  have hp := SetSt.iter_perm_members hi hg
+  exact ⟨hp, hp.nodup_iff.mpr (members_nodup hi)⟩
+
+/-! ### 7. `SortQuick` / `SortMerge` -/
+
+theorem sortQuick_spec {lt : Int → Int → Bool} (hsw : StrictWeak lt) {s : SetSt} (hi : Inv s)
+    {mo : List Int} (hg : s.GoodOrder mo) :
+    Inv (SetSt.sortQuick lt s mo) ∧ (SetSt.sortQuick lt s mo).list.isSome = true ∧
+    (SetSt.sortQuick lt s mo).members.Perm s.members ∧
+    Sorted lt (SetSt.sortQuick lt s mo).members ∧
+    (∀ k, (SetSt.sortQuick lt s mo).check k = s.check k) ∧
+    (SetSt.sortQuick lt s mo).len = s.len :=
+  SetSt.sortWith_full SetSt.sortQuick_perm' (SetSt.sortQuick_sorted' hsw) hi hg
+
+theorem sortMerge_spec {lt : Int → Int → Bool} (hsw : StrictWeak lt) {s : SetSt} (hi : Inv s)
+    {mo : List Int} (hg : s.GoodOrder mo) :
+    Inv (SetSt.sortMerge lt s mo) ∧ (SetSt.sortMerge lt s mo).list.isSome = true ∧
+    (SetSt.sortMerge lt s mo).members.Perm s.members ∧
+    Sorted lt (SetSt.sortMerge lt s mo).members ∧
+    (∀ k, (SetSt.sortMerge lt s mo).check k = s.check k) ∧
+    (SetSt.sortMerge lt s mo).len = s.len :=
+  SetSt.sortWith_full SetSt.sortMerge_perm' (SetSt.sortMerge_sorted' hsw) hi hg
+
+/-- what is sorted is what iteration yielded -/
+theorem sortQuick_members (lt : Int → Int → Bool) {s : SetSt} (hi : Inv s) {mo : List Int}
+    (hg : s.GoodOrder mo) :
+    (SetSt.sortQuick lt s mo).members = SortSeq.sortQuick lt (s.iter mo) :=
+  (SetSt.sortWith_spec SetSt.sortQuick_perm' lt hi hg).2.2.2
+
+theorem sortMerge_members (lt : Int → Int → Bool) {s : SetSt} (hi : Inv s) {mo : List Int}
+    (hg : s.GoodOrder mo) :
+    (SetSt.sortMerge lt s mo).members = SortSeq.sortMerge lt (s.iter mo) :=
+  (SetSt.sortWith_spec SetSt.sortMerge_perm' lt hi hg).2.2.2
+
+/-- the two sorts agree (same map order) -/
+theorem sortMerge_eq_sortQuick {lt : Int → Int → Bool} (hsw : StrictWeak lt) {s : SetSt} (hi : Inv s)
+    {mo : List Int} (hg : s.GoodOrder mo) :
+    (SetSt.sortMerge lt s mo).members = (SetSt.sortQuick lt s mo).members := by
+  rw [sortMerge_members lt hi hg, sortQuick_members lt hi hg]
+  exact C17.sortMerge_eq_sortQuick hsw _
+
+/-- for a comparison that is total on distinct values the result is strictly ascending and does
+    not depend on the order in which an unordered set's map was ranged over, nor on the sorter -/
+theorem sort_strict_unique {lt : Int → Int → Bool} (hsw : StrictWeak lt) (ht : Total lt)
+    {s : SetSt} (hi : Inv s) {mo mo' : List Int} (hg : s.GoodOrder mo) (hg' : s.GoodOrder mo') :
+    (SetSt.sortQuick lt s mo).members.Pairwise (fun a b => lt a b = true) ∧
+    (SetSt.sortQuick lt s mo').members = (SetSt.sortQuick lt s mo).members ∧
+    (SetSt.sortMerge lt s mo').members = (SetSt.sortQuick lt s mo).members := by
+  obtain ⟨a1, _, _, a4, _, _⟩ := sortQuick_spec hsw hi hg
+  exact ⟨SetSt.sorted_strict ht a4 (members_nodup a1),
+    SetSt.sortWith_unique SetSt.sortQuick_perm' SetSt.sortQuick_perm' hsw ht
+      (SetSt.sortQuick_sorted' hsw) (SetSt.sortQuick_sorted' hsw) hi hg' hg,
+    SetSt.sortWith_unique SetSt.sortMerge_perm' SetSt.sortQuick_perm' hsw ht
+      (SetSt.sortMerge_sorted' hsw) (SetSt.sortQuick_sorted' hsw) hi hg' hg⟩
+
+/-- sort, iterate, delete: iteration yields the sorted order, and a later `DeleteCheck` reports
+    whether the value was a member and removes exactly that value from the iteration order -/
+theorem order_after_sortQuick {lt : Int → Int → Bool} (hsw : StrictWeak lt) {s : SetSt} (hi : Inv s)
+    {mo : List Int} (hg : s.GoodOrder mo) (mo' : List Int) (k : Int) :
+    (SetSt.sortQuick lt s mo).iter mo' = (SetSt.sortQuick lt s mo).members ∧
+    Sorted lt ((SetSt.sortQuick lt s mo).iter mo') ∧
+    ((SetSt.sortQuick lt s mo).deleteCheck k).2 = s.check k ∧
+    ((SetSt.sortQuick lt s mo).deleteCheck k).1.iter mo' = ((SetSt.sortQuick lt s mo).iter mo').erase k ∧
+    Sorted lt (((SetSt.sortQuick lt s mo).deleteCheck k).1.iter mo') ∧
+    (((SetSt.sortQuick lt s mo).deleteCheck k).1.iter mo').Perm (s.members.erase k) :=
+  SetSt.sortWith_then_delete SetSt.sortQuick_perm' (SetSt.sortQuick_sorted' hsw) hi hg mo' k
+
+theorem order_after_sortMerge {lt : Int → Int → Bool} (hsw : StrictWeak lt) {s : SetSt} (hi : Inv s)
+    {mo : List Int} (hg : s.GoodOrder mo) (mo' : List Int) (k : Int) :
+    (SetSt.sortMerge lt s mo).iter mo' = (SetSt.sortMerge lt s mo).members ∧
+    Sorted lt ((SetSt.sortMerge lt s mo).iter mo') ∧
+    ((SetSt.sortMerge lt s mo).deleteCheck k).2 = s.check k ∧
+    ((SetSt.sortMerge lt s mo).deleteCheck k).1.iter mo' = ((SetSt.sortMerge lt s mo).iter mo').erase k ∧
+    Sorted lt (((SetSt.sortMerge lt s mo).deleteCheck k).1.iter mo') ∧
+    (((SetSt.sortMerge lt s mo).deleteCheck k).1.iter mo').Perm (s.members.erase k) :=
+  SetSt.sortWith_then_delete SetSt.sortMerge_perm' (SetSt.sortMerge_sorted' hsw) hi hg mo' k
+
+/-- sorting an already ordered set does not touch the map or the allocation counter -/
+theorem sortQuick_ordered_hash (lt : Int → Int → Bool) {s : SetSt} (hi : Inv s) (h : s.list.isSome)
+    (mo : List Int) :
+    (SetSt.sortQuick lt s mo).hash = s.hash ∧
+    (SetSt.sortQuick lt s mo).members = SortSeq.sortQuick lt s.members := by
+  obtain ⟨l, hl⟩ := Option.isSome_iff_exists.mp h
+  obtain ⟨_, h2, _, h4⟩ := SetSt.sortWith_ordered_spec SetSt.sortQuick_perm' lt hi hl mo
+  exact ⟨h2, h4⟩
+
+/-! ### 8. `Equal` -/
+
+theorem equal_iff_ordered {s o : SetSt} (hs : Inv s) (ho : Inv o) (h1 : s.list.isSome)
+    (h2 : o.list.isSome) : s.equal o = true ↔ s.members = o.members := by
+  obtain ⟨a, ha⟩ := Option.isSome_iff_exists.mp h1
+  obtain ⟨b, hb⟩ := Option.isSome_iff_exists.mp h2
+  exact SetSt.equal_ordered hs ho ha hb
+
+theorem equal_iff_unordered {s o : SetSt} (hs : Inv s) (ho : Inv o) (h1 : s.list = none)
+    (h2 : o.list = none) : s.equal o = true ↔ ∀ k, k ∈ s.members ↔ k ∈ o.members :=
+  SetSt.equal_unordered hs ho h1 h2
+
+/-- an ordered and an unordered set are never `Equal` -/
+theorem equal_mixed {s o : SetSt} (h : s.list.isSome ≠ o.list.isSome) : s.equal o = false :=
+  SetSt.equal_of_isOrdered_ne h
+
+/-- both cases in one statement -/
+theorem equal_iff {s o : SetSt} (hs : Inv s) (ho : Inv o) (h : s.list.isSome = o.list.isSome) :
+    s.equal o = true ↔
+      if s.list.isSome then s.members = o.members else ∀ k, k ∈ s.members ↔ k ∈ o.members := by
+  cases h1 : s.list.isSome with
+  | true =>
+    rw [if_pos rfl]
+    exact equal_iff_ordered hs ho h1 (h ▸ h1)
+  | false =>
+    rw [if_neg (by decide)]
+    have h2 : o.list.isSome = false := h ▸ h1
+    exact equal_iff_unordered hs ho (by simpa using h1) (by simpa using h2)
+
+/-! ### 9. JSON round trip -/
+
+/-- marshalling yields `members`; unmarshalling that into a fresh ORDERED set reproduces the
+    members in the same order -/
+theorem json_roundtrip {s : SetSt} (hi : Inv s) :
+    ((SetSt.order {}).addAll s.members).members = s.members ∧
+    ((SetSt.order {}).addAll s.members).list.isSome = true ∧
+    (s.list.isSome → (s.equal ((SetSt.order {}).addAll s.members) = true)) := by
+  have hm : ((SetSt.order {}).addAll s.members).members = s.members := by
+    have := addAll_fresh inv_order_empty (ks := s.members) (by
+      show ([] ++ s.members).Nodup
+      rw [List.nil_append]; exact members_nodup hi)
+    rw [this]; rfl
+  have ho : ((SetSt.order {}).addAll s.members).list.isSome = true := by
+    rw [SetSt.addAll_list_isSome]; rfl
+  exact ⟨hm, ho, fun h => (equal_iff_ordered hi (inv_addAll inv_order_empty _) h ho).mpr hm.symm⟩
+
+/-- for an unordered set the marshalled order is the map order; unmarshalling into a fresh
+    unordered set gives a set with the same members -/
+theorem json_roundtrip_unordered {s : SetSt} (hi : Inv s) (h : s.list = none) {mo : List Int}
+    (hg : s.GoodOrder mo) :
+    (({} : SetSt).addAll (s.iter mo)).members.Perm s.members ∧
+    (({} : SetSt).addAll (s.iter mo)).members = s.iter mo ∧
+    s.equal (({} : SetSt).addAll (s.iter mo)) = true := by
+  obtain ⟨hp, hn⟩ := iter_unordered hi h hg
+  have hm : (({} : SetSt).addAll (s.iter mo)).members = s.iter mo := by
+    have := addAll_fresh inv_empty (ks := s.iter mo) (by
+      show ([] ++ s.iter mo).Nodup
+      rw [List.nil_append]; exact hn)
+    rw [this]; rfl
+  have ho : (({} : SetSt).addAll (s.iter mo)).list = none := by
+    have := SetSt.addAll_list_isSome {} (s.iter mo)
+    simpa using this
+  refine ⟨by rw [hm]; exact hp, hm, ?_⟩
+  rw [equal_iff_unordered hi (inv_addAll inv_empty _) h ho]
+  intro k
+  rw [hm]; exact hp.mem_iff.symm
+
+/-! ### 10. every reachable state -/
+
+/-- `Reachable`: `{}` closed under `Order` (on a set without elements), `AddCheck`, `DeleteCheck`,
+    bulk add, `SortQuick` and `SortMerge` with ANY comparison and any possible map order
+    (in particular strict weak total comparisons and `ascKeys`) -/
+theorem reachable_inv {s : SetSt} (h : SetSt.Reachable s) : Inv s ∧ s.members.Nodup :=
+  ⟨h.inv, members_nodup h.inv⟩
+
+/-- the map order the checks use is always available -/
+theorem reachable_sortQuick_ascKeys {s : SetSt} (h : SetSt.Reachable s) (lt : Int → Int → Bool) :
+    SetSt.Reachable (SetSt.sortQuick lt s s.ascKeys) :=
+  .sortQuick lt _ (ascKeys_goodOrder h.inv) h
+
+theorem reachable_sortMerge_ascKeys {s : SetSt} (h : SetSt.Reachable s) (lt : Int → Int → Bool) :
+    SetSt.Reachable (SetSt.sortMerge lt s s.ascKeys) :=
+  .sortMerge lt _ (ascKeys_goodOrder h.inv) h
+
+theorem reachable_order_empty : SetSt.Reachable (SetSt.order {}) := .order .empty rfl
+
+/-- `SetSt.demo`: add 3, add 1, add 3 again, sort ascending (map order `ascKeys`), delete 1 -/
+example : SetSt.Reachable SetSt.demo :=
+  .delete 1 (reachable_sortQuick_ascKeys (.add 3 (.add 1 (.add 3 .empty))) _)
+
+example : SetSt.demo.members = [3] ∧ SetSt.demo.list.isSome = true ∧ SetSt.demo.check 3 = true ∧
+    SetSt.demo.check 1 = false ∧ SetSt.demo.len = 1 ∧ SetSt.demo.iter [] = [3] := by decide
+
+/-- the intermediate states: insertion order 3, 1; re-adding 3 reports "present" and does not move
+    it; sorting gives 1, 3 -/
+example :
+    (((({} : SetSt).addCheck 3).1.addCheck 1).1.addCheck 3) = (((({} : SetSt).addCheck 3).1.addCheck 1).1, true) ∧
+    ((({} : SetSt).addCheck 3).1.addCheck 1).1.members = [3, 1] ∧
+    (SetSt.sortQuick (fun a b => a < b) ((({} : SetSt).addCheck 3).1.addCheck 1).1 [1, 3]).members = [1, 3] ∧
+    (SetSt.sortQuick (fun a b => a > b) (((SetSt.order {}).addCheck 1).1.addCheck 3).1 []).members = [3, 1] := by
+  decide
+
+/-- `SortMerge` (not evaluable by `decide`: `merge` is defined by well-founded recursion) -/
+example :
+    (SetSt.sortMerge (fun a b => a > b) (((SetSt.order {}).addCheck 1).1.addCheck 3).1 [1, 3]).members = [3, 1] := by
+  have hr : SetSt.Reachable (((SetSt.order {}).addCheck 1).1.addCheck 3).1 :=
+    .add 3 (.add 1 reachable_order_empty)
+  have hg : (((SetSt.order {}).addCheck 1).1.addCheck 3).1.GoodOrder [1, 3] :=
+    ascKeys_goodOrder hr.inv
+  rw [sortMerge_eq_sortQuick strictWeak_int_gt hr.inv hg]
+  decide
 
 end FunModel.C18
